@@ -7,7 +7,8 @@ COQ_FILES = ["Common/Corr.v", "Model/XLexer.v", "Model/XLexerTables.v", "Model/X
              "Proofs/XLexerUtf8.v", "Proofs/XLexerScan.v", "Proofs/XLexerStep.v", "Proofs/XLexerLoop.v",
              "Proofs/XLexer.v", "Proofs/XLexerParser.v", "Proofs/XLexerBraces.v", "Props/C29.v"]
 PROPS = "Props/C29.v"
-THEOREMS = ["C29_tokens_tile", "C29_xlex_total", "C29_prelude_reject_reports_error", "C29_brackets_matched_or_reported"]
+THEOREMS = ["C29_tokens_tile", "C29_xlex_total", "C29_prelude_reject_reports_error", "C29_brackets_matched_or_reported",
+            "C29_fused_brackets_match"]
 # about the lexer as it was before the repairs ([as_is] variant of the model); kept in Props/C29.v, audited with the rest
 HISTORICAL = ["C29_tokens_tile_refuted", "C29_tokens_tile_refuted_by_panic", "C29_tokens_tile_partial", "C29_loop_ends_partial"]
 AXIOMS_OK = []
@@ -48,8 +49,14 @@ def run(ctx):
     maxlen = ctx.budget(3, 4)
     cases = list(X.CORPUS)
     cases += X.small_exhaustive(maxlen)
-    blen = ctx.budget(4, 6)
-    cases += X.bracket_exhaustive(blen) if ctx.tier != "thorough" else X.bracket_exhaustive(blen, (b"(", b")", b"[", b"]", b"{", b"}"))
+    # every sequence of bracket tokens over the three kinds ( ) [ ] { }: up to blen tokens through implementation, model
+    # and oracle; up to blen_o tokens (quick tier: longer than blen) through the implementation and the oracle only
+    SIX = (b"(", b")", b"[", b"]", b"{", b"}")
+    blen, blen_o = ctx.budget(4, 6), ctx.budget(5, 7)
+    cases += X.bracket_exhaustive(blen, SIX)
+    # the same sequences with something between the brackets (the heuristics of fuseBraces look at bracket tokens only)
+    cases += [b" x ".join(bytes([b]) for b in c) for c in X.bracket_exhaustive(3, SIX)]
+    oracle_only = [c for c in X.bracket_exhaustive(blen_o, SIX) if len(c) > blen]
     cases += X.random_rich(rng, ctx.budget(700, 30000))
     files = X.testdata_files(REPO)
     chunks = []
@@ -69,10 +76,14 @@ def run(ctx):
             uniq.append(c)
     cases = uniq
     ctx.rule = ("texts: %d hand-picked edge cases + all strings of length <= %d over a 14-symbol alphabet (quote, backslash, newline, "
-                "space, slash, star, braces, letter, digit, dot, caret, a 2-byte rune, x) + all bracket strings of length <= %d over ( ) [ ] (thorough: also { }) + random strings of 1..16 symbols over a "
+                "space, slash, star, braces, letter, digit, dot, caret, a 2-byte rune, x) + all bracket strings of length <= %d over ( ) [ ] { } "
+                "(implementation, model and oracle; up to length %d: implementation and oracle only) + those of length <= 3 with an identifier between "
+                "the brackets + random strings of 1..16 symbols over a "
                 "72-symbol alphabet (escapes, brackets, comment markers, BOM, invalid UTF-8 bytes, non-ASCII digits / marks / spaces, "
                 "keywords) + mutated chunks of the .proto files under internal/testdata and experimental/parser/testdata; "
-                "distinct = distinct text; non-trivial = non-empty" % (len(X.CORPUS), maxlen, blen))
+                "distinct = distinct text; non-trivial = non-empty; when model and implementation disagree on a text and the oracle "
+                "found nothing, the oracle is also run on all substrings / one-byte deletions / one-bracket extensions of the disagreeing texts"
+                % (len(X.CORPUS), maxlen, blen, blen_o))
 
     outs = ctx.impl("xlexer", [{"mode": "lex", "s": c.hex()} for c in cases])
 
@@ -101,27 +112,37 @@ def run(ctx):
 
     terms, meta = list(tterms), [("table", None)] * len(tterms)
     nviol = {}
-    for c, o in zip(cases, outs):
+
+    def oracle(c, o, suffix=""):
+        """direct oracle: the property on the implementation, one text; False when the harness crashed on it"""
         if "crash" in o or "panic" in o:
             ctx.corr_break("xlexer:lex", {"s": c.hex()}, o)
             ctx.violation("panic-escaped-lexer", "Lexer.Lex panicked past CatchICE or the harness crashed", {"s": c.hex(), "observed": o})
-            continue
+            return False
         klass = "prelude-reject" if X.prelude_rejected(o) else ("ice" if any(d["level"] == 1 for d in o["diags"]) else
                                                                 ("clean" if not o["diags"] else "diagnosed"))
-        ctx.count(c, len(c) > 0, klass)
-        # direct oracle: the property on the implementation
+        ctx.count(c, len(c) > 0, klass + suffix)
         for key, what in X.tiling_oracle(c, o, flushed_probe):
             nviol[key] = nviol.get(key, 0) + 1
-            if nviol[key] <= 3 or key not in (X.K_TRAILING, X.K_ICE_ESC):
+            if nviol[key] <= 3:
                 ctx.violation(key, what, {"s": c.hex(), "text": repr(c), "tokens": o.get("tokens"),
                                           "diags": [(d["level"], d["class"], [sp[:2] for sp in d["spans"]]) for d in o["diags"]]})
+        return True
+
+    for c, o in zip(cases, outs):
+        if not oracle(c, o):
+            continue
         t, why = X.lex_term(c, o, ff, fe)
         if t is None:
             ctx.corr_break("xlexer:lex", {"s": c.hex()}, {"unexpressible": why})
             continue
         terms.append(t)
         meta.append((c, o))
-    ctx.extra["oracle_failures_by_key"] = nviol
+    # the longer bracket sequences after the shorter ones, so that the first replay of a key is the shortest input
+    oouts = ctx.impl("xlexer", [{"mode": "lex", "s": c.hex()} for c in oracle_only])
+    for c, o in zip(oracle_only, oouts):
+        oracle(c, o, ":oracle-only")
+    ctx.extra["oracle_failures_by_key"] = dict(nviol)
     for c in (b"message A {} \x01", b'a "x\\', cases[-1]):
         ctx.sample({"mode": "lex", "s": c.hex(), "text": repr(c)})
 
@@ -132,8 +153,11 @@ def run(ctx):
     phases["before_run"] = round(_t0 - ctx.t0, 1)
     if err:
         raise RuntimeError(err)
+    disagreeing = []
     for k in mism:
         c, o = meta[k]
+        if c != "table":
+            disagreeing.append(c)
         if c == "table":
             ctx.corr_break("xlexer:tables", {"table_term_index": k},
                            {"detail": "keyword table / Unicode class / constants of the working tree differ from Model/XLexerTables.v"})
@@ -142,7 +166,35 @@ def run(ctx):
                            {"tokens": o.get("tokens"),
                             "diags": [(d["level"], d["class"], [sp[:2] for sp in d["spans"]]) for d in o["diags"]],
                             "model_variant": {"fix_flush": ff, "fix_esc": fe}})
+    if disagreeing and not nviol:
+        # model and implementation disagree but the property held on every text so far: look around the disagreeing
+        # texts (shortest first) for one on which it fails
+        seen_all = set(cases) | set(oracle_only)
+        extra = []
+
+        def add(x):
+            if x not in seen_all and len(extra) < ctx.budget(6000, 60000):
+                seen_all.add(x)
+                extra.append(x)
+        for c in sorted(disagreeing, key=len)[:60]:
+            if len(c) <= 24:
+                for i in range(len(c)):
+                    for j in range(i + 1, len(c) + 1):
+                        add(c[i:j])
+            for i in range(len(c)):
+                add(c[:i] + c[i + 1:])
+            for b in SIX:
+                add(c + b)
+                add(b + c)
+                for i in range(1, len(c)):
+                    add(c[:i] + b + c[i:])
+        eouts = ctx.impl("xlexer", [{"mode": "lex", "s": c.hex()} for c in extra]) if extra else []
+        for c, o in zip(extra, eouts):
+            oracle(c, o, ":escalation")
+        ctx.extra["escalation_cases"] = len(extra)
+        ctx.extra["oracle_failures_by_key"] = dict(nviol)
     ctx.exhaustive = True
-    ctx.extra["exhaustive_part"] = "all strings of length <= %d over the 14-symbol alphabet" % maxlen
+    ctx.extra["exhaustive_part"] = ("all strings of length <= %d over the 14-symbol alphabet; all bracket sequences of length <= %d over ( ) [ ] { } "
+                                    "(length <= %d also through the model in coqc)" % (maxlen, blen_o, blen))
     ctx.extra["model_variant"] = {"fix_flush": ff, "fix_esc": fe}
     ctx.extra["historical_lemmas"] = HISTORICAL
